@@ -22,6 +22,9 @@ mod common;
 mod framing;
 
 use common::*;
+
+#[global_allocator]
+static GLOBAL: ObservingAlloc = ObservingAlloc;
 use std::io::Write;
 
 fn generate(prop: &str, tier: &str, rng: &mut Rng) -> Vec<String> {
